@@ -1019,7 +1019,7 @@ def build_struct(target_host: str, banner: Optional['Banner'], kex: Optional['SS
             if (alg_desc_len >= 3) and (len(alg_desc[2]) > 0):
                 alg_info["warn"] = alg_desc[2]
             if (alg_desc_len >= 4) and (len(alg_desc[3]) > 0):
-                alg_info["info"] = alg_desc[3]
+                alg_info["info"] = list(alg_desc[3])  # A copy, since the "available since" text is appended below (that must not end up in the database).
 
             # Add information about when this algorithm was implemented in OpenSSH/Dropbear.
             since_text = Algorithm.get_since_text(alg_desc[0])
